@@ -439,3 +439,78 @@ def _describe(s, t, m):
     return (f"amplifier {s['c']} magnitude {s['mag']} position {s['pos']}: file of {m['w']['len']} bytes "
             f"(uncompressed {m['w']['usize']}) -> outcome {m['raw']['outcome']}, tracemalloc peak {e['peak']} KiB "
             f"(bound {32 * 1024 + 64 * t['hdr']['skib']} KiB), entity expanded={e['expanded']}")
+
+
+# ------------------------------------------------------------------------------------ binding demonstration
+def _corrupt_demo():
+    """`/venv/bin/python -m mbv.props.c12 corrupt-demo`: record three real traces, corrupt one field each,
+    show that TLC (LimitsTrace, reference design) accepts the recorded ones and rejects the corrupted ones."""
+    import copy
+    from ..tlc import Scratch
+
+    class C:
+        thorough = False
+    with Scratch("C12demo") as scratch:
+        C.scratch = scratch
+        scn = lambda **kw: {"k": "", "kind": "", "max": 0, "size": 0, "lim": 0, "lim2": 0, "members": (), "c": "",
+                            "mag": 0, "pos": "", "skib": 0, **kw}
+        scns = [scn(k="read_file", max=4096, size=4096), scn(k="read_file", max=4096, size=4097),
+                scn(k="members", kind="zip", lim=4096, lim2=50 * MiB,
+                    members=({"size": 4096, "folder": 1}, {"size": 4097, "folder": 2}))]
+        wd = scratch / "f"
+        wd.mkdir()
+        wscn = _build_limit_scenarios(C, scns, wd, random.Random(0))
+        res = _run_workers(C, "limits", [{"scenarios": wscn, "wall": 120}], "demo", 300)
+        traces = []
+        for r in sorted(res, key=lambda r: r["id"]):
+            evs = []
+            for e in r["ev"]:
+                e = dict(e)
+                if "m" in e:
+                    e["m"] = int(e["m"][1:].split(".")[0])
+                evs.append(e)
+            traces.append({"id": str(r["id"]), "hdr": _hdr(scns[wscn[r["id"]]["sidx"]]), "ev": evs})
+        from .. import c12_hostile
+        b = c12_hostile.build("ods_cell_repeat_empty", 10 ** 6, "first", random.Random(0))
+        f = scratch / "h.ods"
+        f.write_bytes(b["data"])
+        cr = _run_workers(C, "cost", [{"cases": [{"id": 0, "ext": "ods", "file": str(f)}], "wall": 60}], "democ", 200)[0]
+        cost = {"id": "cost", "hdr": _hdr(scn(k="cost", c="ods_cell_repeat_empty", mag=10 ** 6, pos="first"),
+                                          skib=math.ceil(b["usize"] / 1024)),
+                "ev": [{"a": "Cost", "peak": math.ceil(cr["peak"] / 1024), "outcome": _project_outcome(cr["outcome"]),
+                        "expanded": False}]}
+        variants = [("recorded: read_file(max=4096) on 4096 bytes", traces[0]),
+                    ("recorded: read_file(max=4096) on 4097 bytes", traces[1]),
+                    ("recorded: zip members 4096, 4097 with limit 4096", traces[2]),
+                    ("recorded: cost of an ODS with an empty cell repeated 10^6 times", cost)]
+        t = copy.deepcopy(traces[1])
+        t["ev"][-1]["outcome"] = "Ok"
+        variants.append(("corrupted: 4097-byte file reported as extracted (End.outcome TooLarge -> Ok)", t))
+        t = copy.deepcopy(traces[0])
+        for e in t["ev"]:
+            if e["a"] == "Load":
+                e["n"] -= 1
+        variants.append(("corrupted: Load.n one byte short", t))
+        t = copy.deepcopy(traces[0])
+        t["hdr"]["size"] = 4097
+        variants.append(("corrupted: header says the file had 4097 bytes (so it was loaded although refused)", t))
+        t = copy.deepcopy(traces[2])
+        t["ev"].insert(0, {"a": "Decompress", "m": 2, "to": "mem"})
+        variants.append(("corrupted: Decompress event for the skipped member m2 inserted", t))
+        t = copy.deepcopy(traces[2])
+        t["ev"] = [e for e in t["ev"] if not (e["a"] == "Extract" and e["m"] == 1)]
+        variants.append(("corrupted: Extract event of the member at the limit (m1) removed", t))
+        t = copy.deepcopy(cost)
+        t["ev"][0]["peak"] = 32 * 1024 + 64 * t["hdr"]["skib"] + 1
+        variants.append(("corrupted: peak raised to bound + 1 KiB", t))
+        cfg = "SPECIFICATION TraceSpec\nCONSTRAINT TraceAccept\nCONSTANTS Deviations = {}\n"
+        br = validate("LimitsTrace", cfg, [x for _, x in variants], scratch=scratch, parallel=1, diagnose=0)
+        for (name, x), tv in zip(variants, br.verdicts):
+            print(("ACCEPTED  " if tv.accepted else "REJECTED  ") + name)
+            print("          " + json.dumps(x["ev"])[:200])
+
+
+if __name__ == "__main__":
+    import sys
+    if sys.argv[1:] == ["corrupt-demo"]:
+        _corrupt_demo()
